@@ -152,6 +152,32 @@ Decode(bs) ==
     ELSE IF OutLen(p.toks) < p.n THEN Bad("output-shorter-than-declared")
     ELSE [ok |-> TRUE, out |-> Apply(p.toks)]
 
+(* Does the (parsed) block decode to the given bytes x?  Judged element by element without  *)
+(* materialising the output: by induction the output produced before an element equals the *)
+(* prefix of x, so a literal must equal its slice of x and a copy of (off, len) at output   *)
+(* position p must satisfy 1 <= off <= p and x[p-off+1+((j-1)%off)] = x[p+j] for j in      *)
+(* 1..len (the byte-by-byte copy semantics).  Equivalent to Check(toks) = "ok" /\          *)
+(* Apply(toks) = x (law checked in MC_SnappySelf), but linear in |x| also for megabytes.    *)
+(* -> "ok" or the first reason.                                                             *)
+Against(toks, x) ==
+    LET n == Len(x)
+        step(acc, t) ==      \* acc = <<p, verdict>>
+            IF acc[2] # "ok" THEN acc
+            ELSE LET p == acc[1] IN
+                 IF ~Encodable(t) THEN <<p, "not-encodable">>
+                 ELSE IF IsLit(t) THEN
+                     LET L == CLen(t.d) IN
+                     IF p + L > n THEN <<p, "output-longer-than-input">>
+                     ELSE IF \A j \in 1..L : CAt(t.d, j) = x[p + j] THEN <<p + L, "ok">>
+                     ELSE <<p, "literal-differs-from-input">>
+                 ELSE IF t.off = 0 THEN <<p, "offset-zero">>
+                 ELSE IF t.off > p THEN <<p, "offset-beyond-output">>
+                 ELSE IF p + t.len > n THEN <<p, "output-longer-than-input">>
+                 ELSE IF \A j \in 1..t.len : x[p - t.off + 1 + ((j - 1) % t.off)] = x[p + j] THEN <<p + t.len, "ok">>
+                 ELSE <<p, "copy-differs-from-input">>
+        r == FoldLeft(step, <<0, "ok">>, toks)
+    IN IF r[2] # "ok" THEN r[2] ELSE IF r[1] # n THEN "output-shorter-than-input" ELSE "ok"
+
 \* decoding into a destination of `cap` bytes
 DecodeInto(bs, cap) ==
     LET d == Decode(bs) IN
